@@ -61,14 +61,23 @@ ASSUMPTIONS = ['client objects are plain attribute bags; the _ prefix rule '
 SOURCES = ('kw', 'tvar', 'client', 'mapping', 'ckw', 'cmap')
 FORMS = ('var', 'call', 'callexpr', 'varexprcall', 'entity', 'ifvar',
          'exprlambda', 'exprcomp', 'exprgen')
-BINDERS = ('in', 'inb', 'with', 'withmap', 'withonly', 'let', 'letn', 'if',
-           'elif', 'try', 'sub')
+BINDERS = ('in', 'inb', 'with', 'withmap', 'withonly', 'let', 'letn', 'lete',
+           'if', 'elif', 'try', 'sub')
 SYNTAXES = ('dtml', 'ssi', 'epfs')
+
+
+FALSY = {'S-kw': 0, 'S-tvar': '', 'S-client': 0.0, 'S-client1': 0.5,
+         'S-mapping': [], 'S-ckw': ['seq', 'tuple', []], 'S-cmap': False}
 
 
 def value_spec(kind, marker):
     if kind == 'plain':
         return ['lit', marker]
+    if kind == 'falsy':
+        # every source defines the name with a different *false* value
+        v = FALSY[marker]
+        return v if isinstance(v, list) and v and v[0] == 'seq' \
+            else ['lit', v]
     if kind == 'callable':
         return ['probe', marker, ['lit', marker]]
     # a document template that shows whom it sees
@@ -108,8 +117,11 @@ def cases(tier):
                       'falsy-last') \
                 if 'client' in sub else ('none',)
             for shape in shapes:
-                for kind in ('plain', 'callable', 'template'):
+                for kind in ('plain', 'callable', 'template', 'falsy'):
                     for form in FORMS:
+                        if kind == 'falsy' and form not in (
+                                'var', 'entity', 'ifvar'):
+                            continue
                         if form == 'varexprcall' and kind != 'callable':
                             continue
                         if form.startswith('expr') and kind != 'plain':
@@ -328,6 +340,12 @@ def build_scope(case):
                 # the conditional tests (and so caches) the probe name itself
                 ns['n'] = ns.get('n')
                 node = ['if', [[N('n'), inner]], [T('else')]]
+        elif kind == 'lete':
+            # bound from an expression that is one bare identifier naming a
+            # callable: the callable itself is bound (uncalled) and is
+            # called whenever the let variable is looked up by name
+            ns['letfn%d' % k] = ['probe', 'lf%d' % k, ['lit', marker]]
+            node = ['let', [[name, E('letfn%d' % k)]], inner]
         elif kind == 'elif':
             # the remembered value comes from a name-form elif behind a
             # false expression-form if
